@@ -397,7 +397,7 @@ void World::opBinary(const Step &s)
         return k != FK_MTB;
     });
     if (ca.empty()) { note(OC_SKIP); return; }
-    EdgeSlot &A = *edges[ca[s.a[1] % ca.size()]];
+    EdgeSlot &A = *edges[pick(ca, s.a[1])];
     ForRT &FA = forests[A.forest];
     std::vector<size_t> cb = edgesWhere([&](const EdgeSlot &e) {
         if (e.forest < 0 || !forests[e.forest].alive) return false;
@@ -409,7 +409,7 @@ void World::opBinary(const Step &s)
         return rangeOf(FB.kind()) == rangeOf(FA.kind());
     });
     if (cb.empty()) { note(OC_SKIP); return; }
-    EdgeSlot &B = *edges[cb[s.a[2] % cb.size()]];
+    EdgeSlot &B = *edges[pick(cb, s.a[2])];
     ForRT &FB = forests[B.forest];
     int ri;
     if (s.a[4] & 1) ri = A.forest;
@@ -429,6 +429,7 @@ void World::opBinary(const Step &s)
     out.rel = FA.spec.rel; out.N = D.N;
     out.v.resize(A.tab.v.size());
     ModelErr merr = ME_NONE;
+    unsigned merrs = 0;     // every kind of invalid scalar case met at some point
     bool oracle = A.oracle && B.oracle;
     if (oracle) {
         for (size_t i = 0; i < out.v.size(); i++) {
@@ -439,6 +440,7 @@ void World::opBinary(const Step &s)
                 // documented error dominates only if no point is undefined
                 if (e == ME_UNDEFINED) { merr = ME_UNDEFINED; break; }
                 if (merr == ME_NONE) merr = e;
+                merrs |= 1u << unsigned(e);
             } else if (!kindHoldsValue(FR.kind(), out.v[i])) {
                 merr = ME_UNDEFINED; break;
             }
@@ -491,14 +493,13 @@ void World::opBinary(const Step &s)
             return;
         }
         if (oracle && merr != ME_NONE) {
+            // the library reports whichever invalid point its traversal
+            // meets first: any documented error that some point calls for
             bool ok = false;
-            switch (merr) {
-                case ME_DIV_ZERO:   ok = (ecode == error::DIVIDE_BY_ZERO); break;
-                case ME_SUB_INF:    ok = (ecode == error::SUBTRACT_INFINITY); break;
-                case ME_INF_DIV_INF: ok = (ecode == error::INFINITY_DIV_INFINITY || ecode == error::DIVIDE_BY_ZERO); break;
-                case ME_OVERFLOW:   ok = (ecode == error::VALUE_OVERFLOW); break;
-                default: ok = true;
-            }
+            if (merrs & (1u << ME_DIV_ZERO))     ok = ok || (ecode == error::DIVIDE_BY_ZERO);
+            if (merrs & (1u << ME_SUB_INF))      ok = ok || (ecode == error::SUBTRACT_INFINITY);
+            if (merrs & (1u << ME_INF_DIV_INF))  ok = ok || (ecode == error::INFINITY_DIV_INFINITY || ecode == error::DIVIDE_BY_ZERO);
+            if (merrs & (1u << ME_OVERFLOW))     ok = ok || (ecode == error::VALUE_OVERFLOW);
             if (ecode == error::TYPE_MISMATCH || ecode == error::NOT_IMPLEMENTED) ok = true;
             if (!ok) {
                 failNow("E1", cur_family, std::string(binName(op))
@@ -536,7 +537,7 @@ void World::opComplement(const Step &s)
             && forests[e.forest].kind() == FK_MTB;
     });
     if (ca.empty()) { note(OC_SKIP); return; }
-    EdgeSlot &A = *edges[ca[s.a[0] % ca.size()]];
+    EdgeSlot &A = *edges[pick(ca, s.a[0])];
     ForRT &FA = forests[A.forest];
     int ri = (s.a[2] & 1) ? A.forest : pickForest(s.a[1], [&](const ForRT &F) {
         return F.spec.dom == FA.spec.dom && F.spec.rel == FA.spec.rel
@@ -577,7 +578,7 @@ void World::opCopy(const Step &s)
         return e.forest >= 0 && forests[e.forest].alive;
     });
     if (ca.empty()) { note(OC_SKIP); return; }
-    EdgeSlot &A = *edges[ca[s.a[0] % ca.size()]];
+    EdgeSlot &A = *edges[pick(ca, s.a[0])];
     ForRT &FA = forests[A.forest];
     int ri = pickForest(s.a[1], [&](const ForRT &F) {
         // KF-C10-1: identity-reduced MT relation -> EV+ relation (probe plans only)
@@ -650,7 +651,7 @@ void World::opCopyEdge(const Step &s)
 {
     cur_family = "edges";
     if (edges.empty()) { note(OC_SKIP); return; }
-    EdgeSlot &A = *edges[s.a[0] % edges.size()];
+    EdgeSlot &A = *edges[pickAny(s.a[0])];
     EdgeSlot* res = new EdgeSlot;
     res->client = s.client;
     res->forest = A.forest;
@@ -658,7 +659,7 @@ void World::opCopyEdge(const Step &s)
     res->oracle = A.oracle;
     res->e = new dd_edge(*A.e);
     res->born = uint64_t(cur_step);
-    res->id = next_edge_id++;
+    res->id = freshEdgeId();
     edges.push_back(res);
     desc << en(*res) << " = dd_edge(" << en(A) << ")";
     if (A.forest >= 0 && *res->e != *A.e) {
@@ -673,8 +674,8 @@ void World::opAssign(const Step &s)
 {
     cur_family = "edges";
     if (edges.size() < 2) { note(OC_SKIP); return; }
-    EdgeSlot &T = *edges[s.a[0] % edges.size()];
-    EdgeSlot &S = *edges[s.a[1] % edges.size()];
+    EdgeSlot &T = *edges[pickAny(s.a[0])];
+    EdgeSlot &S = *edges[pickAny(s.a[1])];
     desc << en(T) << " := " << en(S);
     if (!checkEdge(T, "I1", cur_family, "edge about to be overwritten")) return;
     if (!checkEdge(S, "I1", cur_family, "assignment source")) return;
@@ -690,9 +691,10 @@ void World::opRelease(const Step &s)
 {
     cur_family = "edges";
     if (edges.empty()) { note(OC_SKIP); return; }
-    desc << "release " << en(*edges[s.a[0] % edges.size()]);
-    if (!checkEdge(*edges[s.a[0] % edges.size()], "I1", cur_family, "edge about to be released")) return;
-    dropEdge(s.a[0] % edges.size());
+    const size_t victim = pickAny(s.a[0]);
+    desc << "release " << en(*edges[victim]);
+    if (!checkEdge(*edges[victim], "I1", cur_family, "edge about to be released")) return;
+    dropEdge(victim);
     note(OC_OK);
 }
 
@@ -738,7 +740,7 @@ void World::opMassCopy(const Step &s)
         return e.forest >= 0 && forests[e.forest].alive;
     });
     if (ca.empty()) { note(OC_SKIP); return; }
-    EdgeSlot &A = *edges[ca[s.a[0] % ca.size()]];
+    EdgeSlot &A = *edges[pick(ca, s.a[0])];
     static const unsigned counts[] = { 260, 300, 520, 70000 };
     unsigned n = counts[s.a[1] % (plan.prop == "THOROUGH" ? 4 : 3)];
     if (s.a[2] == 777) n = 70000;
@@ -772,7 +774,7 @@ void World::opHoard(const Step &s)
         return e.forest >= 0 && forests[e.forest].alive && e.e->getNode() > 0;
     });
     if (ca.empty() || hoards.size() >= 3) { note(OC_SKIP); return; }
-    EdgeSlot &A = *edges[ca[s.a[0] % ca.size()]];
+    EdgeSlot &A = *edges[pick(ca, s.a[0])];
     static const unsigned small[] = { 254, 255, 256, 257, 258, 300, 20 };
     static const unsigned big[] = { 65534, 65535, 65536, 65537, 65600 };
     unsigned n = small[s.a[1] % 7];
@@ -830,7 +832,7 @@ void World::opDetachAttach(const Step &s)
 {
     cur_family = "edges";
     if (edges.empty()) { note(OC_SKIP); return; }
-    EdgeSlot &A = *edges[s.a[0] % edges.size()];
+    EdgeSlot &A = *edges[pickAny(s.a[0])];
     desc << "detach " << en(A);
     A.e->detach();
     A.forest = -1;
@@ -900,7 +902,7 @@ void World::opRebuild(const Step &s)
         return e.tab.exact();
     });
     if (ca.empty()) { note(OC_SKIP); return; }
-    EdgeSlot &A = *edges[ca[s.a[0] % ca.size()]];
+    EdgeSlot &A = *edges[pick(ca, s.a[0])];
     ForRT &F = forests[A.forest];
     const Dom &D = doms[F.spec.dom].m;
     const FKind k = F.kind();
